@@ -4,6 +4,7 @@ package main
 
 import (
 	"fmt"
+	"strings"
 	"sync/atomic"
 	"time"
 )
@@ -13,6 +14,10 @@ func doBoundU(cfg clientCfg, reqU int) int { return 2*(reqU+cfg.DialTimeoutU+cfg
 
 // calls issued before / during / after a fault; every one must return (response or error) within the bound and never panic
 func faultScenario(name string, quick bool, props []string, token bool, fault func(t *T, p *Peer, pc *peerConn, f frameIn)) {
+	recoverU := 30
+	if strings.Contains(name, "refuse") {
+		recoverU = 100 // the peer listens again after 50 units; attempts are 1 s (20 units) apart
+	}
 	register(&scenario{Name: name, Props: props, Quick: quick, Run: func(t *T) {
 		p := newPeer(t, t.Transport, t.Version)
 		defer p.Shutdown()
@@ -56,7 +61,7 @@ func faultScenario(name string, quick bool, props []string, token bool, fault fu
 			t.Check("timing:do_bound", d <= t.U(bound), "%s took %v (bound %v)", id, d, t.U(bound))
 		}
 		// the client serves requests again after the recovery (C08) unless the fault is permanent
-		t.Sleep(30)
+		t.Sleep(recoverU)
 		r := t.Do(cl, "final", 102, 6)
 		t.Check("serves_again", r.Err == nil, "after the fault and the recovery window a request fails: %v", r.Err)
 		done := make(chan struct{})
